@@ -789,6 +789,48 @@ def psf_case(ctx, cfg, rng, lines, checks, case=None):
     for k in range(0, n, 24):
         lines.append('P ' + fh(sigma ** 2) + ' ' + fh(float(psi[k])))
         checks.append(('psf', dict(case, psi=float(psi[k])), float(pd[k])))
+    # ---- history probes: two sources in one call (each normalised on its own), repeat, inputs unchanged
+    sigma2 = 0.5 * sigma
+    R2 = 9.0 * sigma2
+    xs2 = xs * (R2 / R)
+    wq2 = wq * (R2 / R)
+    src2 = np.zeros(2, dtype=[('ra', np.float64), ('dec', np.float64)])
+    src2['ra'] = [src_ra, (src_ra + 1.0) % 6.0]
+    src2['dec'] = [src_dec, -src_dec]
+    d2 = {'src_array': src2,
+          'ra': np.concatenate([np.full(n, src2['ra'][0]), np.full(n, src2['ra'][1])]),
+          'dec': np.concatenate([src2['dec'][0] + xs, src2['dec'][1] + xs2]),
+          'ang_err': np.concatenate([np.full(n, sigma), np.full(n, sigma2)])}
+    snaps = snap(d2['src_array'], d2['ra'], d2['dec'], d2['ang_err'])
+
+    class _T2:
+        src_evt_idxs = (np.repeat(np.arange(2), 2 * n), np.tile(np.arange(2 * n), 2))
+
+        @staticmethod
+        def get_data(k):
+            return d2[k]
+    pdf2 = GaussianPSFPointLikeSourceSignalSpatialPDF(cfg=cfg)
+    a = np.array(pdf2.calculate_pd(_T2()), dtype=np.float64)
+    _ = pdf.calculate_pd(tdm)
+    b = np.array(pdf2.calculate_pd(_T2()), dtype=np.float64)
+    if not beq(a, b):
+        ctx.violation('GaussianPSFPointLikeSourceSignalSpatialPDF.calculate_pd', 'repeat-differs',
+                      'the same call twice (another instance in between) gives different values', case=case)
+    if changed(snaps, [d2['src_array'], d2['ra'], d2['dec'], d2['ang_err']]) is not None:
+        ctx.violation('GaussianPSFPointLikeSourceSignalSpatialPDF.calculate_pd', 'argument-modified',
+                      'an event / source array was modified', case=case)
+    own = [a[0:n], a[3 * n:4 * n]]
+    for k, (vals, r_, w_, sg_, R_) in enumerate(((own[0], xs, wq, sigma, R), (own[1], xs2, wq2, sigma2, R2))):
+        psi_k = angular_separation(np.full(n, src2['ra'][k]), np.full(n, src2['dec'][k]), d2['ra'][k * n:(k + 1) * n],
+                                   d2['dec'][k * n:(k + 1) * n])
+        tot_k = float(np.sum(2 * math.pi * psi_k * vals * w_))
+        want_k = 1.0 - math.exp(-R_ * R_ / (2 * sg_ * sg_))
+        if not abs(tot_k - want_k) <= 1e-6:
+            ctx.violation('GaussianPSFPointLikeSourceSignalSpatialPDF.calculate_pd', 'multi-source-not-normalised',
+                          f'source {k}: disc integral {tot_k!r}, expected {want_k!r}', case=dict(case, source=k), impl=tot_k)
+    if not close_arr(own[0], pd, 1e-12):
+        ctx.violation('GaussianPSFPointLikeSourceSignalSpatialPDF.calculate_pd', 'multi-source-differs-from-single-source',
+                      'source 0 of a two-source call differs from the single-source call', case=case)
 
 
 def compare_simple(ctx, check, out, site, col=0, tol=1e-12):
@@ -803,14 +845,510 @@ def compare_simple(ctx, check, out, site, col=0, tol=1e-12):
         ctx.disagree(site, cdesc, impl, m, 'value differs')
 
 
+# ============================================================================ history probes
+# Metamorphic probes on the REAL objects (tools/HARDENING.md): the result of every observable is a function of
+# the current inputs only.  No model involved: fresh twins and the independent quadrature oracle.
+
+def beq(a, b):
+    a = np.asarray(a)
+    b = np.asarray(b)
+    return a.shape == b.shape and bool(np.array_equal(a, b, equal_nan=True))
+
+
+def close_arr(a, b, tol):
+    a = np.asarray(a, dtype=np.float64).ravel().tolist()
+    b = np.asarray(b, dtype=np.float64).ravel().tolist()
+    return len(a) == len(b) and all(same(x, y, tol) for x, y in zip(a, b))
+
+
+def snap(*arrs):
+    return [np.array(a, copy=True) for a in arrs]
+
+
+def changed(snaps, arrs):
+    """index of the first array that differs bytewise from its snapshot"""
+    for k, (s0, a) in enumerate(zip(snaps, arrs)):
+        a = np.asarray(a)
+        if s0.dtype != a.dtype or s0.shape != a.shape or s0.tobytes() != a.tobytes():
+            return k
+    return None
+
+
+def make_tdm_k(times, K):
+    from unittest.mock import Mock
+    from skyllh.core.trialdata import TrialDataManager
+    n = len(times)
+    tdm = Mock(spec_set=['__class__', 'trial_data_state_id', 'get_n_values', 'src_evt_idxs', 'n_sources',
+                         'n_selected_events', 'get_data'])
+    tdm.__class__ = TrialDataManager
+    tdm.trial_data_state_id = 1
+    tdm.get_n_values = lambda: K * n
+    tdm.src_evt_idxs = (np.repeat(np.arange(K), n), np.tile(np.arange(n), K))
+    tdm.n_sources = K
+    tdm.n_selected_events = n
+    tdm.get_data = lambda key: times
+    return tdm
+
+
+def mk_profile(env, p):
+    from skyllh.core.flux_model import BoxTimeFluxProfile, GaussianTimeFluxProfile
+    if p['kind'] == 'box':
+        return BoxTimeFluxProfile(t0=p['t0'], tw=p['tw'], cfg=env.cfg)
+    return GaussianTimeFluxProfile(t0=p['t0'], sigma_t=p['sigma'], cfg=env.cfg)
+
+
+def rec_of(kind, rows):
+    if kind == 'box':
+        return np.array([(r['t0'], r['tw']) for r in rows], dtype=[('t0', np.float64), ('tw', np.float64)])
+    return np.array([(r['t0'], r['sigma']) for r in rows], dtype=[('t0', np.float64), ('sigma_t', np.float64)])
+
+
+def call_sig(sig, tdm, rec):
+    with np.errstate(all='ignore'), warnings.catch_warnings():
+        warnings.simplefilter('ignore')
+        return sig.get_pd(tdm=tdm, params_recarray=rec)[0]
+
+
+def time_hist_corpus():
+    ivs = [(0.0, 1.0), (1.25, 4.625), (7.75, 10.0)]
+    b = lambda t0, tw: {'kind': 'box', 'place': 'corpus', 't0': t0, 'tw': tw}            # noqa: E731
+    g = lambda t0, s: {'kind': 'gauss', 'place': 'corpus', 't0': t0, 'sigma': s}         # noqa: E731
+    return [{'kind': 'time-history', 'ivs': ivs, 'pkind': 'box', 'init': b(5.0, 10.0), 'initB': b(2.0, 2.0),
+             'rows': [b(2.0, 2.0), b(8.5, 1.0), b(3.0, 6.0)]},
+            {'kind': 'time-history', 'ivs': ivs, 'pkind': 'gauss', 'init': g(4.0, 1.0), 'initB': g(8.5, 0.25),
+             'rows': [g(2.0, 0.5), g(8.5, 0.25), g(4.0, 2.0)]}]
+
+
+def gen_time_hist_case(ctx, rng):
+    n = rng.choice([1, 2, 3, 3, 5, 8])
+    ivs = gen_intervals(rng, n, rng.choice([0, 1, 58000]))
+    kind = rng.choice(['box', 'box', 'gauss'])
+    rows = []
+    want = rng.choice([2, 3, 4]) + 2
+    while len(rows) < want:
+        p = gen_profile(rng, ivs)
+        if p['kind'] == kind:
+            rows.append(p)
+    # partially coinciding parameters (a memo keyed on part of the state would be hit)
+    for k in range(3, len(rows)):
+        r = rng.random()
+        prev = rows[k - 1]
+        wkey = 'tw' if kind == 'box' else 'sigma'
+        if r < 0.2:
+            rows[k] = dict(prev, **{wkey: prev[wkey] * 2 + (0.125 if kind == 'box' else 0.0)})          # same t0
+        elif r < 0.4:
+            rows[k] = dict(prev, t0=prev['t0'] + rng.choice([0.5, 1.0, 2.25]))                           # same width
+        elif r < 0.55 and kind == 'box':
+            d = rng.choice([0.5, 1.0, 3.0])
+            rows[k] = dict(prev, t0=prev['t0'] + d / 2, tw=prev['tw'] + d)                                # same t_start
+        elif r < 0.7 and kind == 'box':
+            d = rng.choice([0.5, 1.0, 3.0])
+            rows[k] = dict(prev, t0=prev['t0'] - d / 2, tw=prev['tw'] + d)                                # same t_stop
+    return {'kind': 'time-history', 'ivs': ivs, 'pkind': kind, 'init': rows[0], 'initB': rows[1], 'rows': rows[2:]}
+
+
+def quad_norm_check(ctx, site, kind_tag, cdesc, ivs, prof_state, evalf, S):
+    """independent oracle: sum over up-time intervals of the quadrature of evalf = 1 (S > 0 only)"""
+    if not (S > 0 and math.isfinite(S)):
+        return
+    ts, te, sg = prof_state
+    brk = {ts, te}
+    tol = 1e-6
+    if sg is not None:
+        t0 = 0.5 * (ts + te)
+        brk |= {t0 + 0.5 * j * sg for j in range(-17, 18)}
+        n_terms = sum(1 for (l, u) in ivs if ts < u and l <= te)
+        tol += 1e-14 * (n_terms + 1) * 2.0 * math.sqrt(math.pi / 2) * abs(sg) / S
+    xs, ws = quad_nodes(ivs, brk)
+    if len(xs) == 0:
+        return
+    q = np.asarray(evalf(xs), dtype=np.float64)
+    tot = float(np.sum(q * ws))
+    if not np.all(q >= 0) or not abs(tot - 1.0) <= tol:
+        ctx.violation(site, kind_tag, f'quadrature over the on-time = {tot!r}', case=cdesc, impl=tot,
+                      predicate='each density is normalised on its own: sum_I int_I pd = 1')
+
+
+def time_history_case(ctx, env, case):
+    from skyllh.core.livetime import Livetime
+    from skyllh.core.parameters import ParameterModelMapper
+    from skyllh.core.source_model import SourceModel
+    from skyllh.core.signalpdf import SignalTimePDF
+    from skyllh.core.backgroundpdf import BackgroundTimePDF
+    cdesc = dict(case)
+    ivs = [tuple(iv) for iv in case['ivs']]
+    rows = case['rows']
+    K = len(rows)
+    kind = case['pkind']
+    ctx.count('hist-time:' + kind)
+    ctx.count(f'hist-time-sources:{K}')
+    arr = np.array(ivs, dtype=np.float64).reshape((len(ivs), 2))
+    lt = Livetime(arr)                       # ONE Livetime shared by all PDF instances
+    pmm = ParameterModelMapper(models=[SourceModel() for _ in range(K)])
+    # two instances built BEFORE first use
+    sigA = SignalTimePDF(pmm=pmm, livetime=lt, time_flux_profile=mk_profile(env, case['init']), cfg=env.cfg)
+    sigB = SignalTimePDF(pmm=env.pmm, livetime=lt, time_flux_profile=mk_profile(env, case['initB']), cfg=env.cfg)
+    bkgA = BackgroundTimePDF(livetime=lt, time_flux_profile=mk_profile(env, case['init']), cfg=env.cfg)
+    bkgB = BackgroundTimePDF(livetime=lt, time_flux_profile=mk_profile(env, case['initB']), cfg=env.cfg)
+    edges = sorted({e for iv in ivs for e in iv})
+    pts = set()
+    for e in edges[:16]:
+        pts.update([e, e - 1.0 / 32, e + 1.0 / 32])
+    for r in rows + [case['init'], case['initB']]:
+        pts.update([r['t0'], r['t0'] + 1.0 / 64])
+    for l, u in ivs[:8]:
+        pts.add(0.5 * (l + u))
+    times = np.array(sorted(pts), dtype=np.float64)
+    # same length as `times` (a re-used buffer would be exercised), different on/off pattern per position
+    times2 = np.array([t + 1.0 / 128 for t in sorted(pts, reverse=True)], dtype=np.float64)
+    n = len(times)
+    rec = rec_of(kind, rows)
+    rec_rev = rec_of(kind, rows[::-1])
+    lt_arr = lt.uptime_mjd_intervals_arr
+    snaps = snap(times, times2, rec, rec_rev, lt_arr, arr)
+    watched = lambda: [times, times2, rec, rec_rev, lt.uptime_mjd_intervals_arr, arr]     # noqa: E731
+    names = ['times', 'times2', 'params_recarray', 'params_recarray(rev)', 'livetime.uptime_mjd_intervals_arr', 'intervals']
+
+    def args_ok(site):
+        k = changed(snaps, watched())
+        if k is not None:
+            ctx.violation(site, 'argument-modified:' + names[k], 'an input array was modified by the call',
+                          case=cdesc, predicate='arguments are inputs')
+
+    def twin_sig(p):
+        """fresh single-source SignalTimePDF with a fresh Livetime and profile"""
+        return SignalTimePDF(pmm=env.pmm, livetime=Livetime(np.array(ivs, dtype=np.float64).reshape((len(ivs), 2))),
+                             time_flux_profile=mk_profile(env, p), cfg=env.cfg)
+
+    def state(prof):
+        return (float(prof.t_start), float(prof.t_stop), float(prof.sigma_t) if kind == 'gauss' else None)
+
+    def near_window(t, st):
+        return abs(t - st[0]) < 1e-6 or abs(t - st[1]) < 1e-6
+
+    def cmp_twin(site, tag, got, tw_vals, st, tms, extra):
+        for t, a, b in zip(tms.tolist(), np.asarray(got).tolist(), np.asarray(tw_vals).tolist()):
+            if kind == 'gauss' and near_window(t, st):
+                continue
+            if not same(a, b, 0.0 if kind == 'box' else 1e-9):
+                ctx.violation(site, tag, f'pd({t}) = {a!r}, a freshly built PDF with the same parameters gives {b!r}',
+                              case=dict(cdesc, **extra), impl=a, model=b,
+                              predicate='the density depends on the current parameters of its own source only')
+                return False
+        return True
+    try:
+        # ---- 1. one get_pd call, K sources with different parameters; instance B interleaved
+        tdmK = make_tdm_k(times, K)
+        r1 = call_sig(sigA, tdmK, rec)
+        c1 = np.array(r1, copy=True)
+        args_ok('SignalTimePDF.get_pd')
+        rB1 = call_sig(sigB, make_tdm_k(times, 1), env.rec)
+        cB1 = np.array(rB1, copy=True)
+        twB = twin_sig(case['initB'])
+        cmp_twin('SignalTimePDF.get_pd', 'two-instances-interfere', rB1, call_sig(twB, make_tdm_k(times, 1), env.rec),
+                 state(twB.time_flux_profile), times, {'instance': 'B'})
+        for k, row in enumerate(rows):
+            tw = twin_sig(dict(row, kind=kind))
+            st = state(tw.time_flux_profile)
+            tv = call_sig(tw, make_tdm_k(times, 1), env.rec)
+            ok = cmp_twin('SignalTimePDF.get_pd', 'multi-source-differs-from-single-source', r1[k * n:(k + 1) * n], tv, st,
+                          times, {'source': k})
+            if ok and len(ivs) <= 8:
+                def evalf(xs, k=k):
+                    out = call_sig(sigA, make_tdm_k(np.asarray(xs, dtype=np.float64), K), rec)
+                    m = len(xs)
+                    return out[k * m:(k + 1) * m]
+                quad_norm_check(ctx, 'SignalTimePDF.get_pd', 'multi-source-not-normalised', dict(cdesc, source=k), ivs, st,
+                                evalf, float(tw._S))
+        # ---- 2. repeat / interleave / results are owned by the caller
+        r2 = call_sig(sigA, tdmK, rec)
+        if not (beq(r2, c1) if kind == 'box' else close_arr(r2, c1, 1e-9)):
+            ctx.violation('SignalTimePDF.get_pd', 'repeat-differs', 'the same call twice gives different densities', case=cdesc)
+        _ = call_sig(sigA, make_tdm_k(times2, K), rec_rev)        # other events, other parameter order
+        _ = call_sig(sigB, make_tdm_k(times2, 1), env.rec)
+        r3 = call_sig(sigA, tdmK, rec)
+        if not (beq(r3, c1) if kind == 'box' else close_arr(r3, c1, 1e-9)):
+            ctx.violation('SignalTimePDF.get_pd', 'interleave-differs',
+                          'the same call gives a different density after calls with other events / parameters / instances', case=cdesc)
+        if not beq(r1, c1) or not beq(rB1, cB1):
+            ctx.violation('SignalTimePDF.get_pd', 'result-overwritten-by-later-call',
+                          'an array returned earlier was modified by a later call', case=cdesc)
+        if np.shares_memory(r1, r3) or np.shares_memory(r1, rB1):
+            ctx.violation('SignalTimePDF.get_pd', 'results-share-memory', 'results of different calls share memory', case=cdesc)
+        args_ok('SignalTimePDF.get_pd')
+        # ---- 3. new trial data (initialize_for_new_trial pre-computes with the CURRENT profile state)
+        for site, objA, objB, pA, pB in (('BackgroundTimePDF', bkgA, bkgB, case['init'], case['initB']),):
+            res = {}
+            for tag, tms in (('t1', times), ('t2', times2), ('t1-again', times)):
+                for nm, ob, pp in (('A', objA, pA), ('B', objB, pB)):
+                    tdm = make_tdm_k(tms, 1)
+                    with np.errstate(all='ignore'), warnings.catch_warnings():
+                        warnings.simplefilter('ignore')
+                        ob.initialize_for_new_trial(tdm)
+                        res[(tag, nm)] = ob.get_pd(tdm)[0]
+                        if tag == 't1':
+                            res[('t1c', nm)] = np.array(res[(tag, nm)], copy=True)
+                    twb = BackgroundTimePDF(livetime=Livetime(np.array(ivs, dtype=np.float64).reshape((len(ivs), 2))),
+                                            time_flux_profile=mk_profile(env, pp), cfg=env.cfg)
+                    with np.errstate(all='ignore'), warnings.catch_warnings():
+                        warnings.simplefilter('ignore')
+                        twb.initialize_for_new_trial(make_tdm_k(tms, 1))
+                        tv = twb.get_pd(make_tdm_k(tms, 1))[0]
+                    if not beq(res[(tag, nm)], tv):
+                        ctx.violation(site + '.get_pd', 'new-trial-differs-from-fresh',
+                                      f'after initialize_for_new_trial ({tag}, instance {nm}) the density differs from a fresh PDF',
+                                      case=cdesc)
+            for nm in ('A', 'B'):
+                if not beq(res[('t1', nm)], res[('t1c', nm)]):
+                    ctx.violation(site + '.get_pd', 'result-overwritten-by-later-call',
+                                  'the array returned for the first trial was modified by a later trial', case=cdesc)
+            if kind == 'box':
+                quad_norm_check(ctx, site + '.get_pd', 'not-normalised-after-new-trial', cdesc, ivs,
+                                state(objA.time_flux_profile),
+                                lambda xs: (objA.initialize_for_new_trial(make_tdm_k(np.asarray(xs), 1)),
+                                            objA.get_pd(make_tdm_k(np.asarray(xs), 1))[0])[1], float(objA._S))
+        # SignalTimePDF pre-computation for a new trial: all sources see the current profile state
+        tdm1 = make_tdm_k(times2, K)
+        with np.errstate(all='ignore'), warnings.catch_warnings():
+            warnings.simplefilter('ignore')
+            sigA.initialize_for_new_trial(tdm1)
+            rt = sigA.get_pd(tdm1, rec)[0]
+        stA = state(sigA.time_flux_profile)
+        cur = {'kind': kind, 't0': 0.5 * (stA[0] + stA[1])}
+        cur.update({'tw': stA[1] - stA[0]} if kind == 'box' else {'sigma': stA[2]})
+        twc = twin_sig(cur)
+        tvc = call_sig(twc, make_tdm_k(times2, 1), env.rec)
+        m2 = len(times2)
+        for k in range(K):
+            if not cmp_twin('SignalTimePDF.get_pd', 'new-trial-differs-from-fresh', rt[k * m2:(k + 1) * m2], tvc,
+                            state(twc.time_flux_profile), times2, {'source': k, 'after': 'initialize_for_new_trial'}):
+                break
+        args_ok('SignalTimePDF.initialize_for_new_trial')
+        ctx.count('hist-time-done')
+    except Exception as ex:
+        ctx.violation('harness.time_history_case', 'crash-' + type(ex).__name__, repr(ex)[:300], case=cdesc)
+
+
+# ---------------------------------------------------------------------------- spatial PDF histories
+
+def gen_shist_hist_case(ctx, rng):
+    nb = rng.choice([3, 4, 6])
+    e = sorted(rng.sample(range(-8, 9), nb + 1))
+    ev = []
+    for i in range(nb):                       # every bin populated: the constructor accepts
+        for _ in range(rng.randint(1, 12)):
+            ev.append((rng.randint(e[i] * 2, e[i + 1] * 2 - 1), rng.choice([1.0, 1.0, 0.5, 2.0])))
+    adds = []
+    for _ in range(2):
+        adds.append([rng.choice(e) * 2 if rng.random() < 0.3 else rng.randint(e[0] * 2 - 2, e[-1] * 2 + 2)
+                     for _ in range(rng.randint(1, max(2, len(ev))))])
+    return {'kind': 'shist-history', 'e': e, 'ev': ev, 'adds': adds, 'k': rng.choice([1, 2])}
+
+
+def shist_history_case(ctx, cfg, case):
+    from skyllh.core.binning import BinningDefinition
+    from skyllh.i3.backgroundpdf import BackgroundI3SpatialPDF, DataBackgroundI3SpatialPDF, MCBackgroundI3SpatialPDF
+    from skyllh.core.storage import DataFieldRecordArray as DFRA
+    cdesc = dict(case)
+    ctx.count('hist-shist')
+    e = np.array(case['e'], dtype=np.float64) / 8.0
+    xs = np.array([v[0] for v in case['ev']], dtype=np.float64) / 16.0
+    ws = np.array([v[1] for v in case['ev']], dtype=np.float64)
+    adds = [np.array(a, dtype=np.float64) / 16.0 for a in case['adds']]
+    evs = []
+    for a in adds:
+        r = np.zeros(len(a), dtype=[('sin_dec', np.float64), ('other', np.float64)])
+        r['sin_dec'] = a
+        evs.append(r)
+    w = np.diff(e)
+
+    def mk(x, wt):
+        with np.errstate(all='ignore'), warnings.catch_warnings():
+            warnings.simplefilter('ignore')
+            return BackgroundI3SpatialPDF(cfg=cfg, data_sin_dec=x, data_weights=wt,
+                                          sin_dec_binning=BinningDefinition('sin_dec', e.copy()), spline_order_sin_dec=case['k'])
+
+    def observe(pdf, b):
+        c = b.bincenters
+        q = np.concatenate([c, e[:-1] + 0.25 * w, [e[0], e[-1]]])
+        tdm = TDM(sin_dec=q)
+        with np.errstate(all='ignore'), warnings.catch_warnings():
+            warnings.simplefilter('ignore')
+            pdf.initialize_for_new_trial(tdm)
+            pd = np.array(pdf.get_pd(tdm)[0], copy=True)
+            dens = np.exp(pdf._log_spline(c))
+        return pd, dens
+
+    def check(tag, pdf, b, x_all, w_all, site):
+        pd, dens = observe(pdf, b)
+        tw = mk(x_all, w_all)
+        pdt, denst = observe(tw, tw.get_binning('sin_dec'))
+        if not (close_arr(pd, pdt, 1e-12) and close_arr(dens, denst, 1e-12)):
+            ctx.violation(site, 'differs-from-fresh',
+                          f'{tag}: the density differs from a PDF freshly built from the same (combined) sample',
+                          case=dict(cdesc, step=tag), impl=dens.tolist(), model=denst.tolist(),
+                          predicate='the density is a function of the current sample only')
+        tot = float(np.sum(dens * w))
+        sph = float(2 * math.pi * np.sum(pd[:len(w)] * w))
+        if not (np.all(dens > 0) and abs(tot - 1.0) <= 1e-9 and abs(sph - 1.0) <= 1e-9):
+            ctx.violation(site, 'not-normalised', f'{tag}: sum_i f(center_i) width_i = {tot!r}, sphere = {sph!r}',
+                          case=dict(cdesc, step=tag), impl=[tot, sph], predicate='step reading of the density integrates to 1')
+        return pd
+    try:
+        bA = BinningDefinition('sin_dec', e.copy())
+        m3 = max(1, len(xs) // 3)
+        xsB = np.concatenate([xs, xs[:m3]])              # a different sample with every bin populated
+        wsB = np.concatenate([ws, 3.0 * ws[:m3]])
+        snaps = snap(xs, ws, e, evs[0], evs[1])
+        with np.errstate(all='ignore'), warnings.catch_warnings():
+            warnings.simplefilter('ignore')
+            A = BackgroundI3SpatialPDF(cfg=cfg, data_sin_dec=xs, data_weights=ws, sin_dec_binning=bA, spline_order_sin_dec=case['k'])
+            B = BackgroundI3SpatialPDF(cfg=cfg, data_sin_dec=xsB, data_weights=wsB, sin_dec_binning=bA,
+                                       spline_order_sin_dec=case['k'])
+        orig_hist = np.array(A._orig_hist, copy=True)
+        inr = lambda a: a[(a >= e[0]) & (a <= e[-1])]            # noqa: E731
+        site = 'BackgroundI3SpatialPDF'
+        p0 = check('constructed', A, bA, xs, ws, site)
+        p0c = p0.copy()
+        check('constructed (second instance)', B, bA, xsB, wsB, site)
+        steps = [('add_events#1', 0), ('add_events#2', 1), ('reset', None), ('add_events#1 after reset', 0)]
+        for tag, idx in steps:
+            with np.errstate(all='ignore'), warnings.catch_warnings():
+                warnings.simplefilter('ignore')
+                if idx is None:
+                    A.reset()
+                    xa, wa = xs, ws
+                else:
+                    A.add_events(evs[idx])
+                    xa = np.concatenate([xs, inr(adds[idx])])
+                    wa = np.concatenate([ws, np.ones(len(inr(adds[idx])))])
+            check(tag, A, bA, xa, wa, site + ('.reset' if idx is None else '.add_events'))
+            check(tag + ' (other instance untouched)', B, bA, xsB, wsB, site + '.two-instances')
+            if not beq(A._orig_hist, orig_hist):
+                ctx.violation(site + '.add_events', 'stored-histogram-modified', f'{tag}: the stored original histogram changed',
+                              case=dict(cdesc, step=tag))
+        if not beq(p0, p0c):
+            ctx.violation(site + '.get_pd', 'result-overwritten-by-later-call', 'an array returned earlier was modified', case=cdesc)
+        k = changed(snaps, [xs, ws, e, evs[0], evs[1]])
+        if k is not None:
+            ctx.violation(site, 'argument-modified:' + ['data_sin_dec', 'data_weights', 'binedges', 'events#1', 'events#2'][k],
+                          'an input array was modified', case=cdesc)
+        if not beq(bA.binedges, e):
+            ctx.violation(site, 'argument-modified:binning', 'the BinningDefinition was modified', case=cdesc)
+        # the data / MC wrappers are the base class on the same arrays
+        rec = np.zeros(len(xs), dtype=[('sin_dec', np.float64), ('w1', np.float64), ('w2', np.float64)])
+        rec['sin_dec'] = xs
+        rec['w1'] = 0.25 * ws
+        rec['w2'] = 0.75 * ws
+        d = DFRA(rec)
+        cols = snap(d['sin_dec'], d['w1'], d['w2'])
+        with np.errstate(all='ignore'), warnings.catch_warnings():
+            warnings.simplefilter('ignore')
+            M = MCBackgroundI3SpatialPDF(cfg=cfg, data_mc=d, physics_weight_field_names=['w1', 'w2'], sin_dec_binning=bA,
+                                         spline_order_sin_dec=case['k'])
+            D = DataBackgroundI3SpatialPDF(cfg=cfg, data_exp=d, sin_dec_binning=bA, spline_order_sin_dec=case['k'])
+        check('MCBackgroundI3SpatialPDF', M, bA, xs, 0.25 * ws + 0.75 * ws, 'MCBackgroundI3SpatialPDF')
+        check('DataBackgroundI3SpatialPDF', D, bA, xs, np.ones(len(xs)), 'DataBackgroundI3SpatialPDF')
+        if changed(cols, [d['sin_dec'], d['w1'], d['w2']]) is not None:
+            ctx.violation('MCBackgroundI3SpatialPDF', 'argument-modified:data_mc', 'a column of the stored data was modified', case=cdesc)
+    except Exception as ex:
+        ctx.violation('harness.shist_history_case', 'crash-' + type(ex).__name__, repr(ex)[:300], case=cdesc)
+
+
+# ---------------------------------------------------------------------------- energy PDF histories
+
+def ehist_history_case(ctx, cfg, case):
+    """two I3EnergyPDF instances alive at once, repeated / interleaved get_pd, inputs unchanged, wrappers"""
+    from skyllh.core.binning import BinningDefinition
+    from skyllh.i3.pdf import I3EnergyPDF
+    from skyllh.i3.backgroundpdf import DataBackgroundI3EnergyPDF, MCBackgroundI3EnergyPDF
+    from skyllh.core.storage import DataFieldRecordArray as DFRA
+    cdesc = dict(case, kind='ehist-history')
+    ev = case['ev']
+    if len(ev) < 2:
+        return
+    ctx.count('hist-ehist')
+    try:
+        eE = np.array(case['eE'], dtype=np.float64) / 8.0
+        eS = np.array(case['eS'], dtype=np.float64) / 8.0
+        le = np.array([e[0] / 16.0 for e in ev])
+        sd = np.array([e[1] / 16.0 for e in ev])
+        mcw = np.array([e[2] for e in ev])
+        phw = np.array([e[3] for e in ev])
+        be, bs = BinningDefinition('log_energy', eE.copy()), BinningDefinition('sin_dec', eS.copy())
+        snaps = snap(le, sd, mcw, phw, eE, eS)
+
+        def mk(sl):
+            with np.errstate(all='ignore'), warnings.catch_warnings():
+                warnings.simplefilter('ignore')
+                return I3EnergyPDF(cfg=cfg, pmm=None, data_log10_energy=le[sl], data_sin_dec=sd[sl], data_mcweight=mcw[sl],
+                                   data_physicsweight=phw[sl], log10_energy_binning=be, sin_dec_binning=bs, smoothing_filter=None)
+        A = mk(slice(None))
+        B = mk(slice(0, None, 2))
+        hA, hB = np.array(A.hist, copy=True), np.array(B.hist, copy=True)
+        tx = np.array([t[0] / 16.0 for t in case['tests']])
+        ty = np.array([t[1] / 16.0 for t in case['tests']])
+        ok = (tx >= eE[0]) & (tx <= eE[-1]) & (ty >= eS[0]) & (ty <= eS[-1])
+        tx, ty = tx[ok], ty[ok]
+        tdm1 = TDM(log_energy=tx, sin_dec=ty)
+        tdm2 = TDM(log_energy=tx[::-1].copy(), sin_dec=ty[::-1].copy())
+        s2 = snap(tx, ty)
+        a1 = A.get_pd(tdm1)[0]
+        a1c = np.array(a1, copy=True)
+        b1 = B.get_pd(tdm1)[0]
+        A.get_pd(tdm2)
+        a2 = A.get_pd(tdm1)[0]
+        b2 = B.get_pd(tdm1)[0]
+        if not (beq(a2, a1c) and beq(b1, b2)):
+            ctx.violation('I3EnergyPDF.get_pd', 'repeat-differs', 'the same call gives different values (two instances, interleaved)', case=cdesc)
+        if not beq(a1, a1c) or np.shares_memory(a1, a2) or np.shares_memory(a1, A.hist):
+            ctx.violation('I3EnergyPDF.get_pd', 'result-overwritten-by-later-call',
+                          'a returned array changed later or shares memory with another result / the histogram', case=cdesc)
+        if not (beq(A.hist, hA) and beq(B.hist, hB)):
+            ctx.violation('I3EnergyPDF.hist', 'histogram-modified-by-get_pd', 'the stored histogram changed', case=cdesc)
+        tw = mk(slice(None))
+        if not beq(tw.hist, hA):
+            ctx.violation('I3EnergyPDF.hist', 'differs-from-fresh', 'a second construction from the same arrays differs', case=cdesc)
+        k = changed(snaps + s2, [le, sd, mcw, phw, eE, eS, tx, ty])
+        if k is not None or not (beq(be.binedges, eE) and beq(bs.binedges, eS)):
+            ctx.violation('I3EnergyPDF', 'argument-modified', f'input array #{k} or a binning was modified', case=cdesc)
+        # wrappers
+        rec = np.zeros(len(le), dtype=[('log_energy', np.float64), ('sin_dec', np.float64), ('mcweight', np.float64),
+                                       ('p1', np.float64), ('p2', np.float64)])
+        rec['log_energy'], rec['sin_dec'], rec['mcweight'], rec['p1'], rec['p2'] = le, sd, mcw, 0.5 * phw, 0.5 * phw
+        d = DFRA(rec)
+        cols = snap(*[d[f] for f in ('log_energy', 'sin_dec', 'mcweight', 'p1', 'p2')])
+        with np.errstate(all='ignore'), warnings.catch_warnings():
+            warnings.simplefilter('ignore')
+            M = MCBackgroundI3EnergyPDF(cfg=cfg, data_mc=d, physics_weight_field_names=['p1', 'p2'], log10_energy_binning=be,
+                                        sin_dec_binning=bs)
+            D = DataBackgroundI3EnergyPDF(cfg=cfg, data_exp=d, log10_energy_binning=be, sin_dec_binning=bs)
+            D2 = I3EnergyPDF(cfg=cfg, pmm=None, data_log10_energy=le, data_sin_dec=sd, data_mcweight=np.ones(len(le)),
+                             data_physicsweight=np.ones(len(le)), log10_energy_binning=be, sin_dec_binning=bs, smoothing_filter=None)
+        if not close_arr(M.hist, hA, 1e-12):
+            ctx.violation('MCBackgroundI3EnergyPDF', 'differs-from-fresh', 'differs from I3EnergyPDF on the same arrays', case=cdesc)
+        if not beq(D.hist, D2.hist):
+            ctx.violation('DataBackgroundI3EnergyPDF', 'differs-from-fresh', 'differs from I3EnergyPDF with unit weights', case=cdesc)
+        if changed(cols, [d[f] for f in ('log_energy', 'sin_dec', 'mcweight', 'p1', 'p2')]) is not None:
+            ctx.violation('MCBackgroundI3EnergyPDF', 'argument-modified:data_mc', 'a column of the stored data was modified', case=cdesc)
+    except Exception as ex:
+        ctx.violation('harness.ehist_history_case', 'crash-' + type(ex).__name__, repr(ex)[:300], case=cdesc)
+
+
 # ============================================================================ driver
 
-def run_cases(ctx, tcases, hcases, scases, npsf, psf_cases=None):
+def run_cases(ctx, tcases, hcases, scases, npsf, psf_cases=None, thist=(), shhist=()):
     from skyllh.core.config import Config
     env = TimeEnv()
     cfg = Config()
     lines, checks = [], []
     zexprs, zchecks = [], []
+    for c in thist:
+        ctx.case(c)
+        time_history_case(ctx, env, c)
+    for c in shhist:
+        ctx.case(c)
+        shist_history_case(ctx, cfg, c)
     for c in tcases:
         ctx.case(c)
         try:
@@ -820,6 +1358,8 @@ def run_cases(ctx, tcases, hcases, scases, npsf, psf_cases=None):
     for c in hcases:
         ctx.case(c)
         ehist_case(ctx, cfg, c, zexprs, zchecks, lines, checks)
+        if not c['smooth']:
+            ehist_history_case(ctx, cfg, c)
     for c in scases:
         ctx.case(c)
         shist_case(ctx, cfg, c, zexprs, zchecks, lines, checks)
@@ -877,12 +1417,17 @@ def run(ctx):
         tcases.append(gen_time_case(ctx, rng))
     hcases = hist_corpus() + [gen_hist_case(ctx, rng) for _ in range(ctx.budget(40, 600))]
     scases = [gen_shist_case(ctx, rng) for _ in range(ctx.budget(30, 400))]
-    run_cases(ctx, tcases, hcases, scases, ctx.budget(6, 60))
+    thist = time_hist_corpus() + [gen_time_hist_case(ctx, rng) for _ in range(ctx.budget(40, 500))]
+    shhist = [gen_shist_hist_case(ctx, rng) for _ in range(ctx.budget(25, 300))]
+    run_cases(ctx, tcases, hcases, scases, ctx.budget(6, 60), thist=thist, shhist=shhist)
 
 
 def replay(ctx, rp):
     c = rp.get('case') or {}
     kind = c.get('kind')
+    if kind == 'ehist-history':
+        c = dict(c, kind='ehist')
+        kind = 'ehist'
     if kind == 'time':
         case = {'ivs': [tuple(iv) for iv in c['ivs']], 'profile': c['profile']}
         if c.get('update'):
@@ -898,6 +1443,14 @@ def replay(ctx, rp):
     if kind == 'shist':
         case = {'kind': 'shist', 'e': c['e'], 'ev': [tuple(e) for e in c['ev']], 'k': c['k']}
         return run_cases(ctx, [], [], [case], 0)
+    if kind == 'time-history':
+        case = dict(c, ivs=[tuple(iv) for iv in c['ivs']])
+        case.pop('source', None)
+        return run_cases(ctx, [], [], [], 0, thist=[case])
+    if kind == 'shist-history':
+        case = dict(c, ev=[tuple(e) for e in c['ev']])
+        case.pop('step', None)
+        return run_cases(ctx, [], [], [], 0, shhist=[case])
     if kind == 'psf':
         return run_cases(ctx, [], [], [], 0, psf_cases=[{k: c[k] for k in ('kind', 'sigma', 'src', 'seed')}])
     ctx.notes.append('replay file has no concrete input (broken obligation): re-running the full check')
